@@ -4,7 +4,7 @@
 (* API-level state only: the limit, which jobs were handed to the queue (and by which call), *)
 (* how often each job function was invoked, which jobs are inside their function, which have *)
 (* returned, and what WaitIdle was promised.  Events:                                        *)
-(*   new(limit, jobs, nils)  NewConcurrentQueue(limit, jobs...) returned; nils: the ids of    *)
+(*   new(limit, jobs, nils)  NewConcurrentQueue(limit, jobs...) returned; nils: the ids of   *)
 (*                           those positions of the list that hold a nil func                *)
 (*   call enq(c, jobs, nils) client c calls Enqueue(jobs...); nils as above                  *)
 (*   ret  enq(c, q, r)       ... it returned (queued, running) = (q, r)                      *)
@@ -33,7 +33,7 @@
 (*     finished": jobs whose Enqueue (or the constructor) had returned before the WaitIdle   *)
 (*     call started must have left their function.  Other results of WaitIdle, the result    *)
 (*     of WatchState, and whether/when they return at all are not constrained by C18.        *)
-(*  I6 nil jobs.  A nil func is a legal job (the worker skips the call); it has an id like    *)
+(*  I6 nil jobs.  A nil func is a legal job (the worker skips the call); it has an id like   *)
 (*     every other job but there is no user code, hence no enter/leave and nothing at the    *)
 (*     API that tells when a worker has taken it.  The statement does not mention nil jobs;  *)
 (*     the weaker reading is taken everywhere:                                               *)
